@@ -84,6 +84,10 @@ enum cc_stat cc_array_new_conf(CC_ArrayConf const * const conf, CC_Array **out)
     if (!conf->capacity || ex >= CC_MAX_ELEMENTS / conf->capacity)
         return CC_ERR_INVALID_CAPACITY;
 
+    /* The size of the buffer in bytes must be representable as well. */
+    if (conf->capacity > SIZE_MAX / sizeof(void*))
+        return CC_ERR_INVALID_CAPACITY;
+
     CC_Array *ar = conf->mem_calloc(1, sizeof(CC_Array));
 
     if (!ar)
@@ -854,6 +858,10 @@ static enum cc_stat expand_capacity(CC_Array *ar)
      * at the point of overflow, this is check is valid. */
     if (new_capacity <= ar->capacity)
         new_capacity = CC_MAX_ELEMENTS;
+
+    /* A buffer whose size in bytes is not representable cannot be allocated. */
+    if (new_capacity > SIZE_MAX / sizeof(void*))
+        return CC_ERR_ALLOC;
 
     void **new_buff = ar->mem_alloc(new_capacity * sizeof(void*));
 
